@@ -3,6 +3,8 @@ import Goflow.Gen.C05
 import Goflow.Gen.C03
 import Goflow.Gen.C04
 import Goflow.Gen.C07
+import Goflow.Gen.C06
+import Goflow.Gen.C10
 import Goflow.Gen.Malformed
 /-!
   goflow-model: the executable side of the model.
@@ -43,6 +45,13 @@ def execCall (st : DState) (args : List String) : DState × List String :=
     | some d =>
       match Sflow.decodeMessageVersion d with
       | .ok p => (st, ["res ok", "sf " ++ p.toD.render])
+      | .error e => (st, [resLine e])
+  | ["parsepacket", cid, hex] =>
+    match parseHex hex with
+    | none => (st, ["bad-op"])
+    | some d =>
+      match Producer.parsePacket ((st.cfgs.lookup cid).getD {}) FlowMsg.empty d with
+      | .ok m => (st, ["res ok", m.dump])
       | .error e => (st, [resLine e])
   | ["nf", sid, hex] =>
     match parseHex hex with
@@ -104,6 +113,8 @@ def genOps (prop : String) (seed n : Nat) : List String :=
   | "C03" => Gen.run seed (Gen.C03.gen n)
   | "C04" => Gen.run seed (Gen.C04.gen n)
   | "C07" => Gen.run seed (Gen.C07.gen n)
+  | "C06" => Gen.run seed (Gen.C06.gen n)
+  | "C10" => Gen.run seed (Gen.C10.gen n)
   | _ => []
 
 def main (args : List String) : IO UInt32 := do
